@@ -5,6 +5,7 @@ f15_0:
   ret
   call f4_1
   call f18_1
+  mov wvsv1(%rip),%rax
   ret
 .section .text.f15_1,"ax",@progbits
 .globl f15_1
@@ -14,6 +15,7 @@ f15_1:
   call f14_2
   call f25_1
   call f16_0
+  mov wvsv1@GOTPCREL(%rip),%rax
   ret
 .section .text.f15_2,"ax",@progbits
 .globl f15_2
@@ -23,6 +25,7 @@ f15_2:
   call f24_1
   call f26_1
   lea d_f15_2(%rip),%rax
+  mov wvsv0@GOTPCREL(%rip),%rax
   ret
 .section .data.d_f15_2,"aw",@progbits
 .globl d_f15_2
